@@ -37,14 +37,15 @@ VARIABLES l,      \* next line
           jpx,    \* C05 on recorded runs: [on, pos (callbacks seen in this run), exp (Seq of expected firings), i (firings compared)]
           run,    \* name of the current run
           fork,   \* fork index of the current run
+          xeip,   \* the run has EIP-3860 enabled as an extra EIP (reset line: code = 3860)
           cnt     \* rule counters
 
-vars == <<l, viol, nviol, fs, calls, open, jpx, balx, rfx, run, fork, cnt>>
+vars == <<l, viol, nviol, fs, calls, open, jpx, balx, rfx, run, fork, xeip, cnt>>
 
 Comps == {"stream", "gas", "result", "tracerout", "rule", "treeshape", "treecontent", "jpseq", "baljournal"}
 
 Init ==
-  /\ l = 1 /\ viol = <<>> /\ nviol = [c \in Comps |-> 0] /\ fs = <<>> /\ calls = <<>> /\ open = <<>> /\ run = "" /\ fork = 0
+  /\ l = 1 /\ viol = <<>> /\ nviol = [c \in Comps |-> 0] /\ fs = <<>> /\ calls = <<>> /\ open = <<>> /\ run = "" /\ fork = 0 /\ xeip = FALSE
   /\ jpx = [on |-> FALSE, pos |-> 0, exp |-> <<>>, i |-> 0]
   /\ balx = [exp |-> <<>>, got |-> <<>>] /\ rfx = [seen |-> FALSE, ref |-> 0, ok |-> FALSE]
   /\ cnt = [lines |-> 0, runs |-> 0, steps |-> 0, gascont |-> 0, oog |-> 0, pcrule |-> 0, stackrule |-> 0, constgas |-> 0,
@@ -96,6 +97,11 @@ DynCost(e) ==
   ELSE IF o \in {55, 57, 62} /\ Small(e.i0) /\ Small(e.i2) THEN 3 + 3 * Words(e.i2) + ExpGas(m, NewMsize(m, e.i0, e.i2))  \* *COPY
   ELSE IF o = 160 /\ Small(e.i0) /\ Small(e.i1) THEN 375 + 8 * e.i1 + ExpGas(m, NewMsize(m, e.i0, e.i1))           \* LOG0
   ELSE IF o \in {243, 253} /\ Small(e.i0) /\ Small(e.i1) THEN ExpGas(m, NewMsize(m, e.i0, e.i1))                   \* RETURN REVERT
+  ELSE IF o \in 161..164 /\ Small(e.i0) /\ Small(e.i1) THEN 375 + 375 * (o - 160) + 8 * e.i1 + ExpGas(m, NewMsize(m, e.i0, e.i1))   \* LOG1..LOG4
+  \* creations: 32000 + memory for the init code + (CREATE2: hashing it) + (EIP-3860, from Shanghai on: 2 per word of init code);
+  \* the gas handed to the init code is taken on top of this price
+  ELSE IF o = 240 /\ Small(e.i1) /\ Small(e.i2) THEN 32000 + ExpGas(m, NewMsize(m, e.i1, e.i2)) + (IF fork >= 11 \/ xeip THEN 2 * Words(e.i2) ELSE 0)                      \* CREATE
+  ELSE IF o = 245 /\ Small(e.i1) /\ Small(e.i2) THEN 32000 + 6 * Words(e.i2) + ExpGas(m, NewMsize(m, e.i1, e.i2)) + (IF fork >= 11 \/ xeip THEN 2 * Words(e.i2) ELSE 0)  \* CREATE2
   ELSE IF o = 10 /\ e.t1 # "" THEN 10 + (IF fork >= 3 THEN 50 ELSE 10) * (IF e.t1 = "0x0" THEN 0 ELSE HexBytes(e.t1))   \* EXP
   ELSE -1
 
@@ -203,7 +209,7 @@ Line ==
   /\ LET a == Trace[l].a
          r == Trace[l].r
      IN CASE a.k = "reset" ->
-               /\ run' = a.name /\ fork' = ForkIdx(a.kind) /\ fs' = <<>> /\ calls' = <<>> /\ open' = <<>>
+               /\ run' = a.name /\ fork' = ForkIdx(a.kind) /\ xeip' = (a.code = 3860) /\ fs' = <<>> /\ calls' = <<>> /\ open' = <<>>
                /\ jpx' = [on |-> a.top = 1, pos |-> 0, exp |-> <<>>, i |-> 0]
                /\ balx' = [exp |-> <<>>, got |-> <<>>] /\ rfx' = [seen |-> FALSE, ref |-> 0, ok |-> FALSE]
                /\ cnt' = [cnt EXCEPT !.lines = @ + 1, !.runs = @ + 1]
@@ -226,7 +232,7 @@ Line ==
                                          !.exp = IF jpx.on /\ a.kind = "CALL" /\ a.code > 0 THEN Append(@, [pos |-> jpx.pos + 1, to |-> a.to, point |-> "pre"]) ELSE @]
                   /\ AddViol(LineDiffs(a, r) \cup bad, a, r)
                   /\ cnt' = [cnt EXCEPT !.lines = @ + 1, !.enters = @ + 1]
-                  /\ UNCHANGED <<run, fork, balx, rfx>>
+                  /\ UNCHANGED <<run, fork, xeip, balx, rfx>>
           [] a.k = "exit" ->
                \* the parent gets back what the callee left: gas after the call step = gas - cost + (given - used)
                LET popped == IF fs = <<>> THEN fs ELSE Pop(fs)
@@ -255,7 +261,7 @@ Line ==
                                          !.exp = IF fs # <<>> /\ TopF.jp THEN Append(@, [pos |-> jpx.pos, to |-> TopF.to, point |-> "post"]) ELSE @]
                   /\ AddViol(LineDiffs(a, r) \cup bad, a, r)
                   /\ cnt' = [cnt EXCEPT !.lines = @ + 1, !.callret = @ + (IF left >= 0 THEN 1 ELSE 0)]
-                  /\ UNCHANGED <<run, fork, balx>>
+                  /\ UNCHANGED <<run, fork, xeip, balx>>
           [] a.k \in {"step", "fault"} ->
                LET rules == IF a.k = "step" THEN StepRules(a) ELSE {}
                    f2 == IF fs = <<>> THEN fs
@@ -283,7 +289,7 @@ Line ==
                                         !.forkgas = @ + (IF a.err = "" /\ ForkPrices(a.op) # {} THEN 1 ELSE 0),
                                         !.sstorerule = @ + (IF a.k = "step" /\ a.err = "" /\ SStoreKnown(a) THEN 1 ELSE 0),
                                         !.callrule = @ + (IF a.k = "step" /\ a.err = "" /\ CallCost(a) >= 0 THEN 1 ELSE 0)]
-                  /\ UNCHANGED <<run, fork, balx, rfx>>
+                  /\ UNCHANGED <<run, fork, xeip, balx, rfx>>
           [] a.k = "result" \/ r.k = "result" ->
                \* the refund counter at the end of the run is what the SSTORE / SELFDESTRUCT steps of frames that did not fail add up to
                \* (a.top = 1: the stream was cut; no judgement either when a contributing step lacked its facts)
@@ -294,7 +300,7 @@ Line ==
                /\ cnt' = [cnt EXCEPT !.lines = @ + 1, !.results = @ + 1,
                                      !.refunds = @ + (IF r.k = "result" /\ r.costx \notin {"", "0"} THEN 1 ELSE 0),
                                      !.refundrule = @ + (IF a.k = "result" /\ a.top = 0 /\ rfx.seen /\ rfx.ok /\ rfx.ref # 0 THEN 1 ELSE 0)]   \* runs that end with a non-zero refund counter
-               /\ UNCHANGED <<run, fork, calls, open, jpx, balx, rfx>>
+               /\ UNCHANGED <<run, fork, xeip, calls, open, jpx, balx, rfx>>
           [] a.k = "jp" ->
                \* one firing seen by the Aspect provider: a.d = callbacks recorded before it, a.to = contract, a.name = pre/post
                LET i == jpx.i + 1
@@ -304,13 +310,13 @@ Line ==
                IN /\ AddViol(IF bad THEN {"jpseq"} ELSE {}, a, [r EXCEPT !.d = e.pos, !.to = e.to, !.name = e.point])
                   /\ jpx' = [jpx EXCEPT !.i = i]
                   /\ cnt' = [cnt EXCEPT !.lines = @ + 1, !.firings = @ + 1]
-                  /\ UNCHANGED <<fs, run, fork, calls, open, balx, rfx>>
+                  /\ UNCHANGED <<fs, run, fork, xeip, calls, open, balx, rfx>>
           [] a.k = "jpend" ->
                \* no expected firing may be missing (a.top = 1: the stream was cut, no judgement)
                LET bad == a.top = 0 /\ (jpx.i # Len(jpx.exp) \/ a.d # Len(jpx.exp))
                IN /\ AddViol(IF bad THEN {"jpseq"} ELSE {}, a, [r EXCEPT !.d = Len(jpx.exp), !.name = "expected number of firings"])
                   /\ cnt' = [cnt EXCEPT !.lines = @ + 1]
-                  /\ UNCHANGED <<fs, run, fork, calls, open, jpx, balx, rfx>>
+                  /\ UNCHANGED <<fs, run, fork, xeip, calls, open, jpx, balx, rfx>>
           [] a.k = "node" ->
                \* one node of the recorded call tree (index a.d, 1-based; parent a.pc; children a.kids) against the tree the callbacks imply
                LET i == a.d
@@ -326,13 +332,13 @@ Line ==
                IN /\ AddViol(IF a.top = 1 THEN {} ELSE (IF shapeBad THEN {"treeshape"} ELSE {}) \cup (IF contentBad THEN {"treecontent"} ELSE {}), a,
                              [r EXCEPT !.from = e.from, !.to = e.to, !.inh = e.inh, !.outh = e.outh, !.err = e.err, !.usedx = e.leftx, !.gasx = e.gasx, !.pc = e.parent, !.name = "expected from the callbacks"])
                   /\ cnt' = [cnt EXCEPT !.lines = @ + 1, !.nodes = @ + 1]
-                  /\ UNCHANGED <<fs, run, fork, calls, open, jpx, balx, rfx>>
+                  /\ UNCHANGED <<fs, run, fork, xeip, calls, open, jpx, balx, rfx>>
           [] a.k = "tree" ->
                \* the whole tree: as many nodes as call attempts, cursor at rest, nothing beyond the last index (a.top = 1: the stream was cut, no judgement)
                LET bad == a.top = 0 /\ (a.d # Len(calls) \/ a.pc # 0 \/ a.stk # 0)
                IN /\ AddViol(IF bad THEN {"treeshape"} ELSE {}, a, [r EXCEPT !.d = Len(calls), !.name = "expected node count, cursor nil, nothing beyond"])
                   /\ cnt' = [cnt EXCEPT !.lines = @ + 1, !.trees = @ + 1]
-                  /\ UNCHANGED <<fs, run, fork, calls, open, jpx, balx, rfx>>
+                  /\ UNCHANGED <<fs, run, fork, xeip, calls, open, jpx, balx, rfx>>
           [] a.k = "xfer" ->
                \* one observed value transfer (a.d = callbacks recorded before it; real balances of sender / recipient before: t0 t1, after: t2 gasx).
                \* The transfer is the last thing before the frame is announced, so it belongs to the node whose enter callback is number a.d + 1;
@@ -346,7 +352,7 @@ Line ==
                IN /\ balx' = [balx EXCEPT !.exp = e4]
                   /\ AddViol(IF a.top = 0 /\ i = 0 THEN {"baljournal"} ELSE {}, a, [r EXCEPT !.name = "a transfer that no CALL/CREATE frame entry follows"])
                   /\ cnt' = [cnt EXCEPT !.lines = @ + 1, !.xfers = @ + 1]
-                  /\ UNCHANGED <<fs, run, fork, calls, open, jpx, rfx>>
+                  /\ UNCHANGED <<fs, run, fork, xeip, calls, open, jpx, rfx>>
           [] a.k = "balv" ->
                \* one value of the dumped balance journal: account a.to, call index a.d (1-based), position a.pc in its list
                LET k == <<a.to, a.d>>
@@ -354,7 +360,7 @@ Line ==
                IN /\ balx' = [balx EXCEPT !.got = IF k \in DOMAIN @ THEN [@ EXCEPT ![k] = Append(@, a.val)] ELSE @ @@ (k :> <<a.val>>)]
                   /\ AddViol(IF a.top = 0 /\ a.pc # Len(have) + 1 THEN {"baljournal"} ELSE {}, a, [r EXCEPT !.name = "dump out of order"])
                   /\ cnt' = [cnt EXCEPT !.lines = @ + 1, !.balvals = @ + 1]
-                  /\ UNCHANGED <<fs, run, fork, calls, open, jpx, rfx>>
+                  /\ UNCHANGED <<fs, run, fork, xeip, calls, open, jpx, rfx>>
           [] a.k = "balend" ->
                \* C13: the journal is exactly what the observed transfers imply - nothing missing, nothing more, every list in order
                LET bad == a.top = 0 /\ balx.got # balx.exp
@@ -366,11 +372,11 @@ Line ==
                                        !.name = "expected journal of this account and call: " \o (IF k1 \in DOMAIN balx.exp THEN ToString(balx.exp[k1]) ELSE "none")
                                                 \o ", recorded: " \o (IF k1 \in DOMAIN balx.got THEN ToString(balx.got[k1]) ELSE "none")])
                   /\ cnt' = [cnt EXCEPT !.lines = @ + 1, !.baljournals = @ + (IF a.top = 0 /\ DOMAIN balx.exp # {} THEN 1 ELSE 0)]
-                  /\ UNCHANGED <<fs, run, fork, calls, open, jpx, balx, rfx>>
+                  /\ UNCHANGED <<fs, run, fork, xeip, calls, open, jpx, balx, rfx>>
           [] OTHER ->     \* tracer outputs, or "none" on the Artela side (the reference stream is longer)
                /\ AddViol(LineDiffs(a, r), a, r)
                /\ cnt' = [cnt EXCEPT !.lines = @ + 1, !.tracerouts = @ + (IF a.k = "tracer" THEN 1 ELSE 0)]
-               /\ UNCHANGED <<fs, run, fork, calls, open, jpx, balx, rfx>>
+               /\ UNCHANGED <<fs, run, fork, xeip, calls, open, jpx, balx, rfx>>
   /\ l' = l + 1
 
 Next == Line
